@@ -31,6 +31,7 @@ type Ctx struct {
 	ImplTraces  int
 	KnownHits   map[string]bool
 	CorrBroken  []string // correspondence breaks not (yet) turned into a failing input
+	KnownPath   string
 }
 
 func NewCtx(prop, tier string, seed int64, driver, scratch, replayDir string) *Ctx {
